@@ -1567,6 +1567,15 @@ func (fr *Frame) indexAddr(st *State, x *ssa.IndexAddr) {
 	xt := types.Unalias(x.X.Type()).Underlying()
 	switch t := xt.(type) {
 	case *types.Slice:
+		if base.sort != Sort("Slice") {
+			// a coin set (sdk.Coins) used as a list: element access is not modelled (unconstrained element)
+			ex.note("sdk.Coins indexed as a list in %s: element unconstrained", fr.fn.Name())
+			p := ex.alloc(st)
+			ex.assume(st, f.Gt(p, f.Int(0)))
+			ex.store(st, p, t.Elem(), ex.freshOf(st, "coinelem", t.Elem()))
+			fr.env[x] = p
+			return
+		}
 		es := ex.tm.SortOf(t.Elem())
 		fr.safetyOb(st, x, "index", f.And(f.Ge(idx, f.Int(0)), f.Lt(idx, f.Acc("Slice", "len", base))))
 		fr.env[x] = ex.iaddr(es, f.Acc("Slice", "ref", base), f.Add(f.Acc("Slice", "off", base), idx))
